@@ -86,7 +86,7 @@ func init() {
 				n = 800
 			}
 			endings := []string{"limit", "limit", "duration", "cancel-out", "cancel-in", "setupfault", "timeout"}
-			modes := []string{"users", "constant", "staged", "ramp", "gaussian", "custom", "file"}
+			modes := []string{"users", "constant", "staged", "ramp", "gaussian", "custom", "file", "filespan"}
 			var cs []core.Case
 			for i := 0; i < n; i++ {
 				p := c06Params{Ending: endings[i%len(endings)]}
@@ -95,6 +95,8 @@ func init() {
 				switch mode {
 				case "users":
 					p.Spec = engine.Spec{Mode: "users", Concurrency: c, MaxDurationMS: 60000}
+				case "filespan":
+					p.Spec = engine.FileSpanSpec(c, 0)
 				case "file":
 					y := fmt.Sprintf("scenario: verifScenario\nlimits:\n  max-duration: 60s\n  concurrency: %d\n  max-iterations: 0\n  ignore-dropped: true\ndefault:\n  distribution: none\n  jitter: 0\nstages:\n- duration: 150ms\n  mode: constant\n  rate: %d/10ms\n- duration: 60s\n  mode: users\n", c, c)
 					p.Spec = engine.Spec{Mode: "file", YAML: y}
@@ -114,13 +116,19 @@ func init() {
 				switch p.Ending {
 				case "limit":
 					N := uint64(c * (4 + r.IntN(8)))
-					if mode == "file" {
+					if mode == "filespan" {
+						N = uint64(c * (30 + r.IntN(20)))
+					}
+					if mode == "file" || mode == "filespan" {
 						p.Spec.YAML = strings.Replace(p.Spec.YAML, "max-iterations: 0", fmt.Sprintf("max-iterations: %d", N), 1)
 					}
 					p.Spec.MaxIterations = N
 				case "duration":
 					if mode == "file" {
 						p.Spec.YAML = strings.Replace(p.Spec.YAML, "max-duration: 60s", "max-duration: 300ms", 1)
+					}
+					if mode == "filespan" {
+						p.Spec.YAML = strings.Replace(p.Spec.YAML, "max-duration: 60s", "max-duration: 700ms", 1)
 					}
 					p.Spec.MaxDurationMS = 200 + r.IntN(150)
 				case "cancel-in":
@@ -131,7 +139,7 @@ func init() {
 				case "timeout":
 					p.Spec.CompletionMS = 150 + r.IntN(100)
 					p.Spec.MaxDurationMS = 150
-					if mode == "file" {
+					if mode == "file" || mode == "filespan" {
 						p.Spec.YAML = strings.Replace(p.Spec.YAML, "max-duration: 60s", "max-duration: 150ms", 1)
 					}
 				}
@@ -209,6 +217,9 @@ func c06Run(c *core.Case, o *core.Outcome) {
 			}
 			if p.Ending == "timeout" {
 				<-gate
+			}
+			if strings.Contains(p.Desc, "mode=filespan") {
+				engine.SpanSleep(n)
 			}
 			if p.CancelAt != 0 && n == p.CancelAt {
 				cancel()
